@@ -86,9 +86,18 @@ class RegAccessQueue:
         `req_owner` is the request owner.
 
         """
+        front = self._queue[-1]
+
+        if req_type == front.access_type:
+            return req_owner in front.reqs
+
+        # A write registered directly after its owner's own read is
+        # served together with that read once no other reader remains.
         return (
-            req_type == self._queue[-1].access_type
-            and req_owner in self._queue[-1].reqs
+            req_type == AccessType.WRITE
+            and front.reqs == {req_owner}
+            and len(self._queue) > 1
+            and req_owner in self._queue[-2].reqs
         )
 
     def dequeue(self, req_owner: object) -> None:
